@@ -487,19 +487,9 @@ def mutate(s, rng):
     if r < 0.8: return s[:i] + rng.choice(REL_ALPHABET) + s[i:]
     return s[:i] + rng.choice(REL_ALPHABET) + s[i+1:]
 
-import re as _re
-# coq/model/RelParse.v (C09/C10's file) models a version as IDENT (COLON IDENT)?; /repo c2fa7c8 accepts
-# further colons.  Until that model follows, texts with IDENT COLON IDENT COLON are left out here.
-_MULTI_COLON = _re.compile(r":\s*[A-Za-z0-9.+~-]*\s*:")
-
 def any_cases(n, rng, prefix):
     """arbitrary initial texts, operand texts and register programs: correspondence only"""
-    out = []
-    for i in range(n):
-        case = _any_case(rng, f"{prefix}{i}")
-        if not any(_MULTI_COLON.search(t) for t in case[2]):
-            out.append(case[:2])
-    return out
+    return [_any_case(rng, f"{prefix}{i}")[:2] for i in range(n)]
 
 def _any_case(rng, cid):
     texts = []
